@@ -16,7 +16,7 @@ ID = "C03"
 META = {
     "technique": "runtime monitoring: post-condition wrapper on every Battery.charge call + element-wise simulation bound",
     "design_ref": "DESIGN.md section 6 C03",
-    "level_text": "exploration: the bound oracle is evaluated on every charge call of ~1e5 (quick) / ~1e7 (thorough) generated calls over all models, calculations, noise settings and SoC regimes, and on every cell of generated simulations; says nothing about inputs not generated; one battery object under supplies of varying voltage and period with JSON round trips mid-sequence; second simulations with reset() EV objects",
+    "level_text": "exploration: the bound oracle is evaluated on every charge call of ~1e5 (quick) / ~1e7 (thorough) generated calls over all models, calculations, noise settings and SoC regimes, and on every cell of generated simulations; says nothing about inputs not generated; one battery object under supplies of varying voltage and period with JSON round trips mid-sequence; second simulations with reset() EV objects; one invalid pilot in the middle of a period (aborted period judged); charge sequences near the top of the float range",
     "level_note": "trusts the harness-side accessors (battery state via private names with public JSON fallback); numpy global RNG seeded per case; tolerance 1e-9 relative",
 }
 LEVEL = "exploration"
